@@ -232,9 +232,13 @@ func (i *Index) AddDesc(d Descriptor, opts ...IndexOpt) {
 			if tag == "" && referrer == "" {
 				return
 			}
-			if md.Annotations == nil ||
-				((tag == "" || md.Annotations[AnnotRefName] == "" || md.Annotations[AnnotRefName] == tag) &&
-					(referrer == "" || md.Annotations[AnnotReferrerSubject] == "" || md.Annotations[AnnotReferrerSubject] == referrer)) {
+			// an entry is replaced when it has neither a tag nor a referrer subject, or already carries the one being added
+			mdTag, mdReferrer := "", ""
+			if md.Annotations != nil {
+				mdTag = md.Annotations[AnnotRefName]
+				mdReferrer = md.Annotations[AnnotReferrerSubject]
+			}
+			if (mdTag == "" && mdReferrer == "") || (tag != "" && mdTag == tag) || (referrer != "" && mdReferrer == referrer) {
 				i.Manifests[mi] = d
 				return
 			}
